@@ -404,6 +404,8 @@ type cutInfo struct {
 	relStart int // offset of the cut within the torn command
 
 	healthyMulti bool // ends on a boundary and needs more than one read
+
+	mode string // persisted configuration the server is started with ("" = none), see configModes
 }
 
 // info classifies a cut and adds the read geometry of the file log[:c]: how
